@@ -7,8 +7,10 @@ import (
 func lk(t, k int, md string, park bool) Step {
 	return Step{Do: "start", T: t, Op: "lock", K: k, Md: md, Park: park}
 }
-func ul(t int, del, park bool) Step { return Step{Do: "start", T: t, Op: "unlock", Del: del, Park: park} }
-func rel(t int) Step                 { return Step{Do: "release", T: t} }
+func ul(t int, del, park bool) Step {
+	return Step{Do: "start", T: t, Op: "unlock", Del: del, Park: park}
+}
+func rel(t int) Step { return Step{Do: "release", T: t} }
 
 func perms(n int) [][]int {
 	if n == 1 {
@@ -131,6 +133,15 @@ func forcedCases(thorough bool) []*Case {
 				lk(0, 0, m1, false), Step{Do: "start", T: 1, Op: "lock", Md: m2, Ms: 1}, ul(0, false, false),
 				lk(1, 0, m2, false), ul(1, false, false))
 		}
+	}
+	// --- fifo.Map: simultaneous FIRST Lock of a fresh key ---
+	for _, k := range []int{2, 4, 8} {
+		gr, br := 40, 150
+		if thorough {
+			gr, br = 200, 1500
+		}
+		cs = append(cs, &Case{Prim: "fifomap", N: k, Keys: 1, Family: "first-lock-gated", Rounds: gr})
+		cs = append(cs, &Case{Prim: "fifomap", N: k, Keys: 1, Family: "first-lock-barrier", Rounds: br})
 	}
 	cs = append(cs, outerForced(thorough)...)
 	return cs
